@@ -154,6 +154,10 @@ def rules_get_frame(ctx, prefix="R2", F=None):
             ok = len(g) == 1 and g[0]["descs"][0] == ("&", ("field", SELF, fr[0])) and r == g[0]["result"]
             want_idx = ("const", "usize", 0) if (flag == 1 and idx0 == 1) else P_IDX
             ok = ok and g[0]["descs"][1] in (want_idx, P_IDX)
+            if not ok and idx0 == 1:
+                # index 0 established: `frames.first()` is `frames.get(0)`
+                f1 = [e for e in calls(p, lambda e: e["fn"]["name"] == "first")]
+                ok = not g and len(f1) == 1 and f1[0]["descs"][0] == ("&", ("field", SELF, fr[0])) and r == f1[0]["result"]
             ctx.ob(prefix, "get_frame/plain[%s,%s,%s]" % (flag, idx0, has), ok,
                    "without override the frame at the requested index is returned; returns %s" % show(r), b["span"],
                    trace_of(p), what="plain-frame-wrong")
